@@ -43,7 +43,7 @@ def run(chk):
             damaged += [t[:k] for k in range(1, len(t))] + [t[:k] + t[k + 1:] for k in range(len(t))]
     cells += damaged
     cells = list(dict.fromkeys(c for c in cells if c != '' and '\t' not in c and '\n' not in c))
-    headers = HEADERS + (['**' + ''.join(chk.rng.choice('abcxyz') for _ in range(4)) for _ in range(3)] if full else [])
+    headers = HEADERS + ['**' + ''.join(chk.rng.choice('abcxyz') for _ in range(4)) for _ in range(3 if full else 1)]
     chk.rule = ('headers (6 supported non-kern types + unknown ones) x cells: every alternative of the token grammar, '
                 'free text, damaged tokens (every proper prefix and single-character deletion of the grammar alternatives; a '
                 'third of them in the quick tier), random character strings; non-trivial = distinct (header, cell)')
